@@ -342,7 +342,7 @@ LEVEL_TEXT = ('FileLock is modelled as a small-step machine (one step per gated 
               'threads use objects of their own process" as a decidable predicate cfg_ok on programs; such programs never leave '
               'the contract, so mutual exclusion holds with no hypothesis on the run), mutex_refuted_outside_contract (the '
               'contract is needed), monitor_complete (the occupancy monitor Case_C02.ok, incl. its enter/exit consistency clause, '
-              'accepts every trace the model can produce within the contract on crash-free schedules, so it cannot raise a false '
+              'accepts every trace the model can produce within the contract, for all controller traces incl. process crashes, so it cannot raise a false '
               'alarm where implementation and model agree) and monitor_sound (model-free: an accepted observed log has no '
               'kernel/table mismatch and, after every prefix, at most one thread inside, recomputed from the enter/exit events '
               'alone).  Tied to /repo by replaying, inside Coq, the exact schedules on which the real class was just '
